@@ -3,23 +3,32 @@ import PySMT.Proofs.C10AIG
 import PySMT.Proofs.C10Partition
 import PySMT.Proofs.C10SelfSub
 import PySMT.Proofs.C10TimesShape
-import PySMT.Proofs.C10PrenexMain
+import PySMT.Proofs.C10PrenexTotal
 import PySMT.Proofs.C10Propagate
+import PySMT.Proofs.SimpMain
 /-!
 # C10 — normal forms and Boolean quantifier elimination: property theorems (obligations)
 
 Models: `PySMT/Impl/Rewritings/*.lean` (one file per procedure of `pysmt/rewritings.py` /
 `pysmt/solvers/qelim.py`). Reference semantics: `eval` (`Core/Eval.lean`).
 
-Hypotheses (all decidable, satisfied by every formula a `FormulaManager` builds):
-* `t.wf` : well-typed with the constructors' arities (`Impl/WF.lean`);
+What is a theorem about what: every statement is about the hand-written models; their agreement with the
+Python code is tested on every run (harness K), not proved.
+
+Hypotheses (all decidable). They hold of the formulas a `FormulaManager` builds **except** that
+`Term.wf` makes every `pow` and algebraic-constant node ill-formed (they have no semantics in
+`Core/Eval.lean`): no theorem below speaks about a formula containing `Pow`.
+* `t.wf` : well-typed with the constructors' arities, no `pow` / algebraic constant (`Impl/WF.lean`);
 * `t.typeOf = some .bool` : a formula (the procedures that only make sense on formulas);
 * `I.WF` : every symbol / function value inhabits its sort, every quantification domain is
   non-empty and well-sorted ("every interpretation");
 * `BoolExact I` : both truth values are in the Boolean quantification domain ("Boolean
   quantifiers are evaluated exactly") — needed by the two QE procedures only;
 * `boolQuants t` : every binder binds Boolean variables (the fragment of the QE procedures;
-  otherwise `ShannonQuantifierEliminator` raises).
+  otherwise `ShannonQuantifierEliminator` raises; Python's self-substitution has no such check, its
+  behaviour on other binders is outside the theorems);
+* `normal t`, `ConstKeys t` (propagate only, inherited from the substitution lemma of C05): the
+  constructors' normal form, and array values whose keys are constant nodes.
 -/
 namespace PySMT.C10
 open PySMT.Rewritings
@@ -118,6 +127,17 @@ theorem prenex_equiv (fresh : Nat → String) (hinj : Inj fresh) (t r : Term) (h
     (hav : Avoids fresh t) (h : prenex fresh t = some r) (I : Interp) (hI : I.WF) : eval I r = eval I t :=
   prenex_equiv_main hinj t r hwf hty hq hpl hav h I hI
 
+/-- **`prenex_total`**: on every well-formed formula the walk returns a result (so `prenex_equiv`,
+`prenex_shape`, `prenex_wf` are not vacuous for any class of formulas) -/
+theorem prenex_total (fresh : Nat → String) (t : Term) (hwf : t.wf = true) (hty : t.typeOf = some .bool) :
+    ∃ r, prenex fresh t = some r := prenex_total_main t hwf hty
+
+/-- **`prenex_wf`**: the result is a well-formed formula (same hypotheses as `prenex_equiv`) -/
+theorem prenex_wf (fresh : Nat → String) (hinj : Inj fresh) (t r : Term) (hwf : t.wf = true)
+    (hty : t.typeOf = some .bool) (hq : quantInBoolPos t = true) (hpl : plainBinders t = true)
+    (hav : Avoids fresh t) (h : prenex fresh t = some r) : r.wf = true ∧ r.typeOf = some .bool :=
+  prenex_wf_main hinj t r hwf hty hq hpl hav h
+
 /-! ## top-level propagation -/
 
 /-- the full statement for `propagate_toplevel(f, do_simplify=False)` (every formula, binders
@@ -128,16 +148,61 @@ def propagate_equiv_full_statement : Prop :=
   ∀ (rank : Term → Int) (t r : Term), t.wf = true → t.typeOf = some .bool →
     propagate rank t = some r → ∀ I : Interp, I.WF → eval I r = eval I t
 
-/-- `_partial` (the full statement above is false): proved for every formula in which no symbol of a
-top-level definition `symbol = symbol/constant` is bound anywhere in the formula (`propagateSafe`, a
-decidable guard that excludes exactly the capture of F51; in particular all quantifier-free formulas),
-for every ranking of the symbols (`rank` = the node ids the disjoint set compares), including the early
-`False` on two different constants in one class.  `do_simplify=True` composes this with the simplifier,
-which is the subject of C01. -/
+/-- **`propagate_total`**: on every well-formed formula `propagate_toplevel` returns (constants of one
+sort can always be ranked), for every ranking of the symbols -/
+theorem propagate_total (rank : Term → Int) (t : Term) (hwf : t.wf = true) (hty : t.typeOf = some .bool) :
+    ∃ r, propagate rank t = some r := propagate_total_main rank t hwf hty
+
+/-- **`propagate_wf`**: the result is a well-formed formula -/
+theorem propagate_wf (rank : Term → Int) (t r : Term) (hwf : t.wf = true) (hty : t.typeOf = some .bool)
+    (hn : Build.normal t = true) (h : propagate rank t = some r) : r.wf = true ∧ r.typeOf = some .bool :=
+  propagate_wf_main rank t r hwf hty hn h
+
+/-- `_partial` (the full statement above is false): proved whenever no symbol of a *representative* — a
+value of the substitution `sigma = movedOf rank t` — is bound anywhere in the formula (`repsNotBound`).
+This is what the capture of F51 needs; a bound *key* (`x = y ∧ ∀y. y ≤ z` with `x` leading) or a constant
+representative (`x = 1 ∧ ∀x. x ≤ y`) is harmless and allowed.  The guard is sufficient, not necessary (a
+bound representative whose key does not occur below that binder is harmless too).  The substitution is the
+`MGSubstituter` model of C05 (rebuilding through every manager constructor: `ToReal(1)` folds to `1.0`,
+`r / 2.0` becomes `r * 1/2`), whence the hypotheses `normal t` and `ConstKeys t` of its substitution lemma.
+Every ranking `rank` (= the node ids the disjoint set compares); the early `False` on two different
+constants in one class is included. -/
 theorem propagate_equiv_partial (rank : Term → Int) (t r : Term) (hwf : t.wf = true)
-    (hty : t.typeOf = some .bool) (hsafe : propagateSafe t = true) (h : propagate rank t = some r)
+    (hty : t.typeOf = some .bool) (hn : Build.normal t = true) (hck : Subst.ConstKeys t = true)
+    (hsafe : repsNotBound rank t = true) (h : propagate rank t = some r)
     (I : Interp) (hI : I.WF) : eval I r = eval I t :=
-  propagate_equiv_safe rank t r hwf hty hsafe h I hI
+  propagate_equiv_main rank t r hwf hty hn hck hsafe h I hI
+
+/-- the default `do_simplify=True`: `propagate_toplevel` followed by the simplifier model of C01.
+`_partial`: in addition to the hypotheses of `propagate_equiv_partial`, the intermediate result must lie in
+the fragment `Simplifier.inFrag` of C01's soundness theorem, and no division by zero may be evaluated in it
+under `I` (C01's proviso). -/
+theorem propagate_simp_equiv_partial (rank : Term → Int) (t r0 r : Term) (hwf : t.wf = true)
+    (hty : t.typeOf = some .bool) (hn : Build.normal t = true) (hck : Subst.ConstKeys t = true)
+    (hsafe : repsNotBound rank t = true) (h0 : propagate rank t = some r0) (h : propagateSimp rank t = some r)
+    (hfr : Simplifier.inFrag r0 = true) (I : Interp) (hI : I.WF) (hd : div0 I r0 = false) :
+    eval I r = eval I t := by
+  have hr : r = Simplifier.simp r0 := by
+    unfold propagateSimp at h
+    rw [h0] at h
+    exact (Option.some.inj h).symm
+  obtain ⟨hw0, ht0⟩ := propagate_wf_main rank t r0 hwf hty hn h0
+  rw [hr, ((Simplifier.simp_spec r0 hw0 hfr .bool ht0).2.1 I hI hd).1]
+  exact propagate_equiv_main rank t r0 hwf hty hn hck hsafe h0 I hI
+
+/-- every member of the conjunctive partition is implied by the formula (and dually) -/
+theorem partition_members (t : Term) (hwf : t.wf = true) (hty : t.typeOf = some .bool) (I : Interp) (hI : I.WF) :
+    (truth I t = true → ∀ x ∈ conjPartition t, truth I x = true) ∧
+    (∀ x ∈ disjPartition t, truth I x = true → truth I t = true) := by
+  constructor
+  · intro ht x hx
+    have := (conjLeaves_spec t ⟨hwf, hty⟩).2 I hI
+    rw [ht, List.all_eq_true] at this
+    exact this x ((mem_dedup x _).mp hx)
+  · intro x hx htx
+    have := (disjLeaves_spec t ⟨hwf, hty⟩).2 I hI
+    rw [← this, List.any_eq_true]
+    exact ⟨x, (mem_dedup x _).mp hx, htx⟩
 
 /-! ## non-vacuity: the hypotheses are satisfiable by non-trivial formulas and interpretations -/
 section Examples
@@ -224,18 +289,26 @@ example : propagate (fun _ => 0) t2 =
     some (.node .and [.node .and [.mkEq (.int 1) (.int 1), .node .le [.int 1, .sym y] .none] .none,
                       .mkEq (.sym x) (.int 1)] .none) := by
   simp [propagate, buildLeader, conjPartition, conjLeaves, dedup, isDefinition, isSymbol, isConstant, Term.op,
-    Op.isConstant, dsAdd, Leader.ensure, Leader.get, lookupT, compareRank, substT.eq_def, bodyMap, rebuild,
-    mkAnd, t2, Term.mkAnd, Term.mkEq, Term.sym, Term.int, x, y, Sym.var]
+    Op.isConstant, dsAdd, Leader.ensure, Leader.get, lookupT, compareRank, Subst.substG.eq_def, Subst.bodyMap,
+    Subst.build, Subst.noInterp, Subst.lookup, Build.rebuild, Build.mkAndN, Build.isBvSameWidthOp, Op.isQuantifier, mkAnd, t2, Term.mkAnd, Term.mkEq, Term.sym, Term.int, x, y, Sym.var]
 
-/-- `y = x ∧ ∃b. (b ∨ x ≤ y)` : a binder, but not of a defined symbol — the guard holds; for
-`y = x ∧ ∀x. x ≤ y` (finding F51) it does not -/
-example : propagateSafe (.mkAnd [.mkEq (.sym y) (.sym x), .mkExists [b] (.mkOr [.sym b, .node .le [.sym x, .sym y] .none])])
-    = true ∧
-    propagateSafe (.mkAnd [.mkEq (.sym y) (.sym x), .mkForall [x] (.node .le [.sym x, .sym y] .none)]) = false := by
+/-- the guard is exact about *representatives*: with `rank` constantly 0 the first member met leads.
+`x = 1 ∧ ∀x. x ≤ y` (constant representative) is allowed, and so is a bound key;
+`x = y ∧ ∀x. x ≤ y` with `x` leading (finding F51: the representative `x` is bound) is not -/
+example : repsNotBound (fun _ => 0) (.mkAnd [.mkEq (.sym x) (.int 1), .mkForall [x] (.node .le [.sym x, .sym y] .none)]) = true ∧
+    repsNotBound (fun _ => 0) (.mkAnd [.mkEq (.sym x) (.sym y), .mkForall [x] (.node .le [.sym x, .sym y] .none)]) = false := by
   constructor <;>
-  simp [propagateSafe, defTerms, boundVars, conjPartition, conjLeaves, dedup, isDefinition, isSymbol, isConstant,
-    Term.op, Op.isConstant, Term.fv, Term.mkAnd, Term.mkEq, Term.mkExists, Term.mkForall, Term.mkOr, Term.sym, x, y, b,
-    Sym.var]
+  simp [repsNotBound, movedOf, buildLeader, boundVars, conjPartition, conjLeaves, dedup, isDefinition, isSymbol,
+    isConstant, Term.op, Op.isConstant, dsAdd, Leader.ensure, Leader.get, lookupT, compareRank, Term.fv, Term.mkAnd,
+    Term.mkEq, Term.mkForall, Term.sym, Term.int, x, y, Sym.var]
+
+example : Build.normal t2 = true ∧ Subst.ConstKeys t2 = true ∧ repsNotBound (fun _ => 0) t2 = true := by
+  refine ⟨?_, ?_, ?_⟩
+  · simp [Build.normal, Build.normalNode, Build.isBvSameWidthOp, t2, Term.mkAnd, Term.mkEq, Term.sym, Term.int, Term.op]
+  · simp [Subst.ConstKeys, Build.pairsOf, t2, Term.mkAnd, Term.mkEq, Term.sym, Term.int]
+  · simp [repsNotBound, movedOf, buildLeader, boundVars, conjPartition, conjLeaves, dedup, isDefinition, isSymbol,
+      isConstant, Term.op, Op.isConstant, dsAdd, Leader.ensure, Leader.get, lookupT, compareRank, Term.fv, t2,
+      Term.mkAnd, Term.mkEq, Term.sym, Term.int, x, y, Sym.var]
 
 /-- `(x + 1) * y` is distributed -/
 example : timesDistr (.node .times [.node .plus [.sym x, .int 1] .none, .sym y] .none) =
